@@ -67,7 +67,11 @@ ParseClauses(T) ==
              THEN {"KF:F16"} ELSE {})
        \cup (IF canwrite /\ o.dump.status = "ok"
                 /\ (o.re.status # "ok" \/ o.re.v # o.v \/ o.re.pos # Len(o.dump.b)) THEN {"reparse"} ELSE {})
-       \cup (IF Has(T.obs, "res2") /\ ~SameRun(o, T.obs.res2, lax) THEN {"equiv"} ELSE {})    \* also: one reader returns a value where the other raises
+       \* also: one reader returns a value where the other raises.  Two failures of different classes agree when the
+       \* specification leaves open which is noticed first (eof-or-decode)
+       \cup (IF Has(T.obs, "res2") /\ ~SameRun(o, T.obs.res2, lax)
+                /\ ~(~r.ok /\ r.err = "eof-or-decode" /\ ErrMatches(o.status, r.err) /\ ErrMatches(T.obs.res2.status, r.err))
+             THEN {"equiv"} ELSE {})
        \cup (IF Has(T.obs, "res2") /\ ~r.ok /\ o.status = "ok" /\ T.obs.res2.status = "ok" /\ o.v # T.obs.res2.v THEN {"equiv"} ELSE {})
        \cup (IF Has(T.obs, "layout2") /\ T.obs.layout2 # T.obs.layout THEN {"equiv-layout"} ELSE {})
        \cup (IF Has(T.obs, "sizeof") /\ ~SizeAgree(T, r, o) THEN {"sizeagree"} ELSE {})
